@@ -151,6 +151,57 @@ Definition contract (tr : list env_ev) : bool := contract_from results_done worl
 
 Definition is_poll (e : env_ev) : bool := match e with EPoll _ => true | _ => false end.
 
+(* ---------- the world of a MIRRORED unit on the submitting node ----------
+   There the stdout file is the local copy that monitorRemoteStdout is filling and the status is
+   the remote record as monitorRemoteStatus copied it.  The final record may arrive — it usually
+   does: the copy is only started once a record with a size has arrived — while most of the
+   output is still on its way, so neither half of [contract] holds.  What holds instead:
+   (1) the copy exists before any finishing record that carries a size (the first action of
+       monitorRemoteStdout is to create it);
+   (2) a finishing record carries the size of the REMOTE output, the copy is a prefix of that
+       (Proofs/Mirror.v mirror_prefix): it is never longer than the recorded size;
+   (3) a finishing record stays as it is.
+   [contract_m] says nothing about the copy ever becoming complete; that is mirror_converges. *)
+Definition has_file (w : world) : bool := match w_file w with Some _ => true | None => false end.
+
+Fixpoint contract_m_from (fin : N -> bool) (w : world) (tr : list env_ev) : bool :=
+  match tr with
+  | [] => true
+  | e :: r =>
+    (match e with
+     | EAppend b => if fin (w_state w) then rlen (w_output w ++ b) <=? w_size w else true
+     | ESetStatus st sz =>
+       if fin st
+       then (rlen (w_output w) <=? sz) && (has_file w || (sz =? 0)) &&
+            (if fin (w_state w) then sz =? w_size w else true)
+       else negb (fin (w_state w))
+     | _ => true
+     end) && contract_m_from fin (env_step w e) r
+  end.
+
+Definition contract_m (tr : list env_ev) : bool := contract_m_from results_done world0 tr.
+
+(* ---------- a reader that takes the size from the file instead of the record ----------
+   The same goroutine with [filePos >= stdoutSize(unitdir)] as the second half of the finish
+   condition: it sees, at the moment of the check, a record whose size is the current length of
+   the file.  Kept only to be refuted (Proofs/Results.v results_filesize_refuted): on a local unit
+   it behaves like the real one, on a mirrored unit it ends as soon as the record is final. *)
+Definition filesize_view (w : world) : world := mkWorld (w_file w) (w_state w) (rlen (w_output w)).
+
+Fixpoint run_from_filesize (done : N -> bool) (start : N) (w : world) (ph : rphase) (tr : list env_ev)
+  : list bytes * rphase * world :=
+  match tr with
+  | [] => ([], ph, w)
+  | EPoll n :: r =>
+    let '(ph', c) := reader_step done start (filesize_view w) ph n in
+    let '(cs, phf, wf) := run_from_filesize done start w ph' r in
+    (match c with [] => cs | _ => c :: cs end, phf, wf)
+  | e :: r => run_from_filesize done start (env_step w e) ph r
+  end.
+
+Definition results_run_filesize (start : N) (tr : list env_ev) : list bytes * bool :=
+  let '(cs, ph, _) := run_from_filesize results_done start world0 RWait tr in (cs, is_done ph).
+
 (* ---------- prefix test used by checks and statements ---------- *)
 Fixpoint is_prefix (a b : bytes) : bool :=
   match a, b with
@@ -205,8 +256,11 @@ Fixpoint eager (tr : list env_ev) : list env_ev :=
   | e :: r => e :: repeat (EPoll 65536) (polls_after e) ++ eager r
   end.
 
+(* RMCase: the same for a session on a mirrored unit — the trace is the history of the local copy
+   and of the local record on the submitting node, held against [contract_m] *)
 Inductive results_case :=
-| RCase (start : N) (pre post : list env_ev) (got : bytes) (ended : bool).
+| RCase (start : N) (pre post : list env_ev) (got : bytes) (ended : bool)
+| RMCase (start : N) (pre post : list env_ev) (got : bytes) (ended : bool).
 
 (* number of polls after an event that certainly exhausts the reader: wait->read, one read per
    64 KiB, eof, check *)
@@ -219,6 +273,13 @@ Definition results_check (c : results_case) : bool :=
     let tr := pre ++ repeat (EPoll 65536) k ++ eager post in
     let '(cs, fin) := results_run start tr in
     contract (pre ++ post) &&
+    (if ended then fin && beq_bytes (concat cs) got
+     else negb fin && is_prefix got (concat cs))
+  | RMCase start pre post got ended =>
+    let k := polls_for (pre ++ post) in
+    let tr := pre ++ repeat (EPoll 65536) k ++ eager post in
+    let '(cs, fin) := results_run start tr in
+    contract_m (pre ++ post) &&
     (if ended then fin && beq_bytes (concat cs) got
      else negb fin && is_prefix got (concat cs))
   end.
